@@ -6,6 +6,8 @@ import Bng.Drv.Decoders
     new                                  => ok
     md5 <hex>                            => <digest hex>          (validates Bng.Md5 against crypto/md5)
     dg <secret> <ack|nak|def> <hex>      => drop | act <coa|dm> <fields|-> <response hex>
+    dgp <secret> <policy> <prime> <hex>  => the same for <hex>, received immediately after <prime> (the listener
+                                            reuses one receive buffer: <prime>'s tail is still in it)
 
   Monitors, evaluated on the IMPLEMENTATION's observation with the specification predicate
   `Coa.authentic` (the one `Spec.C15.acted_iff_authentic` is about), H = MD5:
@@ -29,6 +31,32 @@ def responseOk (secret dgram resp : Bytes) (kind : String) : Bool :=
   (beNat ((resp.take 4).drop 2) == resp.length) &&
   ((resp.take 20).drop 4 == Md5.md5 (resp.take 4 ++ (dgram.take 20).drop 4 ++ resp.drop 20 ++ secret))
 
+/-- verdicts for one test datagram; `prime` = the datagram the listener received immediately before
+    (its tail is still in the listener's reused receive buffer) -/
+def judge (s : Bytes) (policy : String) (prime : Option Bytes) (b : Bytes) (impl : String) : LineResult :=
+  -- the unchanged listener never looks past the bytes received (`int(length) > n` is dropped), so its
+  -- verdict on `b` does not depend on the buffer; the model therefore is the stateless `Coa.receive`
+  let model := DecodersDrv.coaObs s policy b
+  let auth := Coa.authentic Md5.md5 s b
+  -- what the test datagram would look like completed by the stale tail of the previous one
+  let stale := match prime with
+    | some p => Coa.authentic Md5.md5 s (b ++ p.drop b.length)
+    | none => false
+  let why := if stale then " (the datagram completed by the previous datagram's tail in the receive buffer IS authentic: stale-buffer read)" else ""
+  let viols : List (String × String × String) :=
+    match splitTokens impl with
+    | ["drop"] => if auth then [("ignored-authentic", "none", "authentic request dropped")] else []
+    | ["act", kind, _, resp] =>
+      (if auth then [] else [("acted-unauthentic", "none", "handler/response for a datagram that is not authentic" ++ why)]) ++
+      (match parseHexBytes resp with
+        | some r => if responseOk s b r kind then [] else [("bad-response", "none", "response does not verify")]
+        | none => [("bad-response", "none", "unparseable response")])
+    | _ =>
+      if impl.startsWith "panic" then
+        [(if auth then "ignored-authentic" else "acted-unauthentic", "none", "listener crashed: " ++ impl)]
+      else [("bad-response", "none", "unrecognised observation")]
+  { modelObs := model, viols := viols }
+
 def step (st : Unit) (toks : List String) (impl : String) : Unit × LineResult :=
   match toks with
   | ["new"] => (st, { modelObs := "ok" })
@@ -36,23 +64,11 @@ def step (st : Unit) (toks : List String) (impl : String) : Unit × LineResult :
     | some b => (st, { modelObs := bytesToHex (Md5.md5 b) })
     | none => (st, { modelObs := "badop" })
   | ["dg", secret, policy, h] => match parseHexBytes secret, parseHexBytes h with
-    | some s, some b =>
-      let model := DecodersDrv.coaObs s policy b
-      let auth := Coa.authentic Md5.md5 s b
-      let viols : List (String × String × String) :=
-        match splitTokens impl with
-        | ["drop"] => if auth then [("ignored-authentic", "none", "authentic request dropped")] else []
-        | ["act", kind, _, resp] =>
-          (if auth then [] else [("acted-unauthentic", "none", "handler/response for a datagram that is not authentic")]) ++
-          (match parseHexBytes resp with
-            | some r => if responseOk s b r kind then [] else [("bad-response", "none", "response does not verify")]
-            | none => [("bad-response", "none", "unparseable response")])
-        | _ =>
-          if impl.startsWith "panic" then
-            [(if auth then "ignored-authentic" else "acted-unauthentic", "none", "listener crashed: " ++ impl)]
-          else [("bad-response", "none", "unrecognised observation")]
-      (st, { modelObs := model, viols := viols })
+    | some s, some b => (st, judge s policy none b impl)
     | _, _ => (st, { modelObs := "badop" })
+  | ["dgp", secret, policy, prime, h] => match parseHexBytes secret, parseHexBytes prime, parseHexBytes h with
+    | some s, some p, some b => (st, judge s policy (some p) b impl)
+    | _, _, _ => (st, { modelObs := "badop" })
   | _ => (st, { modelObs := "badop" })
 
 def component : Component := { σ := Unit, init := (), step := step }
